@@ -218,6 +218,9 @@ class NF:
                 name = e.func.attr
                 args = [recv] + args
             else:
+                inl = self._inline_method(e, args, depth)
+                if inl is not None:
+                    return inl
                 # method call on an object: self.m(x) stays an uninterpreted symbol
                 return ('mcall', recv, e.func.attr) + tuple(args) + kws
         elif isinstance(e.func, ast.Name):
@@ -231,6 +234,37 @@ class NF:
         if name in ('or', 'and', 'minimum_', 'maximum_'):
             return (name,) + tuple(sorted(args, key=self._key))
         return ('call', name) + tuple(args) + kws
+
+
+def _inline_method(self, e, args, depth):
+    """self._helper(a, b) with a straight-line single-return private helper: the helper's normal form with its
+    parameters bound to the argument normal forms."""
+    f = e.func
+    owner = self.fn
+    while owner is not None and not (owner.cls is not None and owner.self_name):
+        owner = owner.outer
+    if owner is None or not (isinstance(f.value, ast.Name) and f.value.id == owner.self_name) or e.keywords or depth > 6:
+        return None
+    if not f.attr.startswith('_') or f.attr.startswith('__'):
+        return None
+    m = owner.cls.lookup(f.attr)
+    if m is None or m.kind != 'method' or len(m.params) - 1 != len(args):
+        return None
+    sub = NF(self.prog, m, batch_names=self.batch_names)
+    sub.env = dict(zip(m.params[1:], args))
+    for s_ in m.body():
+        if isinstance(s_, ast.Assign) and len(s_.targets) == 1 and isinstance(s_.targets[0], ast.Name):
+            sub.env[s_.targets[0].id] = sub.nf(s_.value, depth + 1)
+        elif isinstance(s_, ast.Return) and s_.value is not None:
+            return sub.nf(s_.value, depth + 1)
+        elif isinstance(s_, ast.Expr) and isinstance(s_.value, ast.Constant):
+            continue
+        else:
+            return None
+    return None
+
+
+NF._inline_method = _inline_method
 
 
 def function_nf(prog, fn, rename=None, batch_names=(), skip_calls=()):
